@@ -13,14 +13,7 @@ def open_case(spec):
     with warnings.catch_warnings():
         warnings.simplefilter("ignore")
         ds = specs.build(spec)
-        if spec.get("mode") == "file":
-            # (reading the values would load - and cache - what is meant to stay on disk:
-            # the record is taken from a second handle on the same file)
-            import xarray
-            with xarray.open_dataset(ds.encoding["source"]) as twin:
-                before = snapshot(twin)
-        else:
-            before = snapshot(ds)
+        before = snapshot_of_case(spec, ds)
         conv = specs.bind_convention(spec, ds)
     _OPENED.append((ds, before, f"{spec['conv']} dataset (warm-up {spec.get('warmup') or []})"))
     return ds, conv
@@ -105,6 +98,17 @@ def snapshot(ds):
         out[str(name)] = (tuple(var.dims), str(values.dtype), values.shape, payload,
                           repr(sorted((str(k), repr(v)) for k, v in var.attrs.items())))
     return out
+
+
+def snapshot_of_case(spec, ds):
+    """snapshot(ds) that leaves a lazily opened dataset lazy: reading the values would load -
+    and cache - what is meant to stay on disk, so the record is taken from a second handle on
+    the same file."""
+    if spec.get("mode") == "file":
+        import xarray
+        with xarray.open_dataset(ds.encoding["source"]) as twin:
+            return snapshot(twin)
+    return snapshot(ds)
 
 
 def changed_variables(ds, before):
